@@ -17,11 +17,11 @@ type regDR struct {
 }
 
 type regAffine struct {
-	Start        int `json:"start"`
-	Count        int `json:"count"`
-	Base         int `json:"base"`
-	Step         int `json:"step"`
-	MinDR        int `json:"min_dr"`
+	Start        int  `json:"start"`
+	Count        int  `json:"count"`
+	Base         int  `json:"base"`
+	Step         int  `json:"step"`
+	MinDR        int  `json:"min_dr"`
 	MaxDR        *int `json:"max_dr"`
 	MaxDRAtLeast *int `json:"max_dr_at_least"`
 }
@@ -35,28 +35,28 @@ type regChannels struct {
 }
 
 type regRX1DR struct {
-	Kind        string           `json:"kind"`
-	DRLo        int              `json:"dr_lo"`
-	DRHi        int              `json:"dr_hi"`
-	OffHi       int              `json:"off_hi"`
-	PosOffsets  int              `json:"pos_offsets"`
-	Rows        map[string][]int `json:"rows"`
-	EffOffsets  []int            `json:"effective_offsets"`
-	Cap         int              `json:"cap"`
-	FloorNoDw   int              `json:"floor_nodwell"`
-	FloorDw400  int              `json:"floor_dwell400"`
+	Kind       string           `json:"kind"`
+	DRLo       int              `json:"dr_lo"`
+	DRHi       int              `json:"dr_hi"`
+	OffHi      int              `json:"off_hi"`
+	PosOffsets int              `json:"pos_offsets"`
+	Rows       map[string][]int `json:"rows"`
+	EffOffsets []int            `json:"effective_offsets"`
+	Cap        int              `json:"cap"`
+	FloorNoDw  int              `json:"floor_nodwell"`
+	FloorDw400 int              `json:"floor_dwell400"`
 }
 
 type regBand struct {
-	Uplink      regChannels      `json:"uplink"`
-	Downlink    json.RawMessage  `json:"downlink"`
+	Uplink      regChannels            `json:"uplink"`
+	Downlink    json.RawMessage        `json:"downlink"`
 	RX2         struct{ Freq, DR int } `json:"rx2"`
-	DataRates   map[string]regDR `json:"datarates"`
-	UndefinedDR []int            `json:"undefined_dr"`
-	TXPowerStep int              `json:"tx_power_step"`
-	RX1Channel  json.RawMessage  `json:"rx1_channel"`
-	RX1DR       regRX1DR         `json:"rx1dr"`
-	PingSlot    json.RawMessage  `json:"ping_slot"`
+	DataRates   map[string]regDR       `json:"datarates"`
+	UndefinedDR []int                  `json:"undefined_dr"`
+	TXPowerStep int                    `json:"tx_power_step"`
+	RX1Channel  json.RawMessage        `json:"rx1_channel"`
+	RX1DR       regRX1DR               `json:"rx1dr"`
+	PingSlot    json.RawMessage        `json:"ping_slot"`
 }
 
 type regional struct {
